@@ -572,6 +572,173 @@ example : (run {} demo2).thr[1]? = some ⟨2, 5, .bind⟩ ∧ (run {} demo2).don
     (run {} demo2).live = [2] ∧ (run {} demo2).present = true ∧ (run {} demo2).armed = false ∧
     step (run {} demo2) (.done 2) = none := by decide
 
+/-! ## the tree store on its own, for all tree ids at once (`Model/C11Store.lean`) -/
+namespace Store
+open C11.Store
+
+theorem at_step (s : St) (o : Op) (id : Nat) :
+    (step s o).at_ id = match restrict id o with
+      | some o1 => step1 (s.at_ id) o1
+      | none => s.at_ id := by
+  cases o with
+  | close => simp [step, restrict]
+  | on j o' =>
+    by_cases e : j = id
+    · subst e
+      cases o' <;> simp [step, restrict, upd]
+    · have e' : ¬ id = j := fun h => e h.symm
+      cases o' <;> simp [step, restrict, upd, e, e']
+
+/-- **tree ids do not interfere**: under every sequence of store operations, on any ids and in any
+order, what the store holds for one id is what a store holding only that id would hold after that
+id's own operations (and the `Close`s) — the single-tree view that the C11 model takes is exact. -/
+theorem independent (s : St) (ops : List Op) (id : Nat) :
+    (run s ops).at_ id = run1 (s.at_ id) (ops.filterMap (restrict id)) := by
+  induction ops generalizing s with
+  | nil => rfl
+  | cons o os ih =>
+    simp only [run, List.filterMap_cons]
+    rw [ih, at_step]
+    cases h : restrict id o <;> simp [run1]
+
+theorem reap_unarmed (t : St1) (g : Nat) (h : t.armed = none) :
+    (step1 t (.reap g)).slot = t.slot ∧ (step1 t (.reap g)).armed = none ∧
+    (step1 t (.reap g)).closed = t.closed := by
+  unfold step1
+  by_cases hg : g ∈ t.firing <;> simp [hg, h]
+
+theorem timer_unarmed (t : St1) (h : t.armed = none) : step1 t .timer = t := by
+  simp [step1, h]
+
+theorem remove_closed (t : St1) (h : t.closed = true) : step1 t .remove = t := by
+  simp [step1, h]
+
+/-- operations that neither schedule a removal nor store a tree -/
+def quiet : Op1 → Bool
+  | .remove => false
+  | .set _ => false
+  | _ => true
+
+/-- **a cancelled removal deletes nothing**: once `Set` has stored a tree (cancelling whatever removal
+was scheduled), no sequence of timer firings, removal routines getting the lock — including routines
+of removals scheduled BEFORE the `Set`, whose timers had already fired —, refreshes, registrations or a
+`Close` takes the tree away; only a removal scheduled afterwards can. -/
+theorem fresh_tree_survives (s : St1) (c : Nat) (ops : List Op1) (h : ∀ o ∈ ops, quiet o = true) :
+    (run1 (step1 s (.set c)) ops).slot = .present c ∧ (run1 (step1 s (.set c)) ops).armed = none := by
+  have key : ∀ (ops : List Op1) (t : St1), (∀ o ∈ ops, quiet o = true) → t.slot = .present c → t.armed = none →
+      (run1 t ops).slot = .present c ∧ (run1 t ops).armed = none := by
+    intro ops
+    induction ops with
+    | nil => intro t _ h1 h2; exact ⟨h1, h2⟩
+    | cons o os ih =>
+      intro t hq h1 h2
+      have hq' : ∀ o ∈ os, quiet o = true := fun o ho => hq o (List.mem_cons_of_mem _ ho)
+      have ho := hq o (List.mem_cons_self ..)
+      simp only [run1]
+      cases o with
+      | remove => simp [quiet] at ho
+      | set _ => simp [quiet] at ho
+      | register => exact ih _ hq' (by simp [step1, h1]) (by simp [step1, h1, h2])
+      | unregister => exact ih _ hq' (by simp [step1, h1]) (by simp [step1, h1, h2])
+      | refresh => exact ih _ hq' (by simp [step1, h1]) (by simp [step1])
+      | timer => rw [timer_unarmed t h2]; exact ih _ hq' h1 h2
+      | close => exact ih _ hq' (by simp [step1, h1]) (by simp [step1])
+      | reap g =>
+        have hr := reap_unarmed t g h2
+        exact ih _ hq' (by rw [hr.1, h1]) hr.2.1
+  exact key ops _ h (by simp [step1]) (by simp [step1])
+
+/-- the same for the whole store: other ids may do anything meanwhile -/
+theorem fresh_tree_survives_store (s : St) (id c : Nat) (ops : List Op)
+    (h : ∀ o ∈ ops, ∀ o1, restrict id o = some o1 → quiet o1 = true) :
+    ((run (step s (.on id (.set c))) ops).at_ id).slot = .present c := by
+  rw [independent, at_step]
+  have : restrict id (.on id (.set c)) = some (.set c) := by simp [restrict]
+  rw [this]
+  refine (fresh_tree_survives (s.at_ id) c _ ?_).1
+  intro o1 ho1
+  rw [List.mem_filterMap] at ho1
+  obtain ⟨o, ho, hr⟩ := ho1
+  exact h o ho o1 hr
+
+/-- a removal routine that finds its removal cancelled (or replaced by a later one) changes nothing
+but its own bookkeeping -/
+theorem cancelled_removal_deletes_nothing (s : St1) (g : Nat) (h : s.armed ≠ some g) :
+    (step1 s (.reap g)).slot = s.slot ∧ (step1 s (.reap g)).armed = s.armed := by
+  simp only [step1]
+  split <;> simp [h]
+
+/-- **released afterwards**: a scheduled removal that is not cancelled removes the tree once its timer
+has fired and its routine got the lock -/
+theorem removal_completes (s : St1) (g : Nat) (h : s.armed = some g) (hf : g ∉ s.firing) :
+    (step1 (step1 s .timer) (.reap g)).slot = .absent ∧ (step1 (step1 s .timer) (.reap g)).armed = none := by
+  simp [step1, h, hf]
+
+/-- after `Close` nothing is scheduled any more, and nothing can be -/
+theorem closed_store_schedules_nothing (s : St1) (ops : List Op1) (h : ∀ o ∈ ops, ∀ c, o ≠ .set c) :
+    (run1 (step1 s .close) ops).closed = true ∧
+    ((run1 (step1 s .close) ops).slot = .absent → s.slot = .absent ∨ s.slot = .requested) := by
+  have key : ∀ (ops : List Op1) (t : St1), (∀ o ∈ ops, ∀ c, o ≠ .set c) → t.closed = true → t.armed = none →
+      (run1 t ops).closed = true ∧ ((run1 t ops).slot = .absent → t.slot = .absent ∨ t.slot = .requested) := by
+    intro ops
+    induction ops with
+    | nil => intro t _ h1 _; exact ⟨h1, fun h => .inl h⟩
+    | cons o os ih =>
+      intro t hq h1 h2
+      have hq' : ∀ o ∈ os, ∀ c, o ≠ .set c := fun o ho => hq o (List.mem_cons_of_mem _ ho)
+      have ho := hq o (List.mem_cons_self ..)
+      simp only [run1]
+      cases o with
+      | set c => exact absurd rfl (ho c)
+      | register =>
+        have := ih (step1 t .register) hq' (by simp only [step1]; split <;> simp [h1]) (by simp only [step1]; split <;> simp [h2])
+        refine ⟨this.1, fun h => ?_⟩
+        have h' := this.2 h
+        simp only [step1] at h'
+        split at h' <;> simp_all
+      | unregister =>
+        have := ih (step1 t .unregister) hq' (by simp only [step1]; split <;> simp [h1]) (by simp only [step1]; split <;> simp [h2])
+        refine ⟨this.1, fun h => ?_⟩
+        have h' := this.2 h
+        simp only [step1] at h'
+        split at h' <;> simp_all
+      | refresh => exact ih _ hq' (by simp [step1, h1]) (by simp [step1])
+      | remove => rw [remove_closed t h1]; exact ih _ hq' h1 h2
+      | timer => rw [timer_unarmed t h2]; exact ih _ hq' h1 h2
+      | close => exact ih _ hq' (by simp [step1]) (by simp [step1])
+      | reap g =>
+        have hr := reap_unarmed t g h2
+        have := ih (step1 t (.reap g)) hq' (by rw [hr.2.2, h1]) hr.2.1
+        refine ⟨this.1, fun h => ?_⟩
+        have h' := this.2 h
+        rw [hr.1] at h'
+        exact h'
+  have := key ops (step1 s .close) h (by simp [step1]) (by simp [step1])
+  simpa [step1] using this
+
+/-- **the routine as it was before repair 2e39a89 deletes a tree that was just stored**: a removal is
+scheduled, its timer fires while `Set` holds the lock, `Set` cancels the removal and stores the tree,
+then the routine gets the lock and deletes without looking. -/
+theorem old_routine_deletes_fresh_tree :
+    (run1Old {} [.set 1, .remove, .timer, .set 2, .reap 0]).slot = .absent ∧
+    (run1 {} [.set 1, .remove, .timer, .set 2, .reap 0]).slot = .present 2 := by decide
+
+/-- worse: it also forgets a removal scheduled meanwhile, so the tree then stays for ever -/
+theorem old_routine_forgets_new_removal :
+    (run1Old {} [.set 1, .remove, .timer, .set 2, .remove, .reap 0]).armed = none ∧
+    (run1 {} [.set 1, .remove, .timer, .set 2, .remove, .reap 0]).armed = some 1 := by decide
+
+/-- non-vacuity of `independent`/`fresh_tree_survives_store`: three ids interleaved -/
+example : ((run {} [.on 0 (.set 1), .on 1 (.set 1), .on 0 .remove, .on 2 .register, .on 0 .timer,
+      .on 1 .remove, .on 0 (.set 2), .on 0 (.reap 0), .on 1 .timer, .on 1 (.reap 0), .close]).at_ 0).slot = .present 2 ∧
+    ((run {} [.on 0 (.set 1), .on 1 (.set 1), .on 0 .remove, .on 2 .register, .on 0 .timer,
+      .on 1 .remove, .on 0 (.set 2), .on 0 (.reap 0), .on 1 .timer, .on 1 (.reap 0), .close]).at_ 1).slot = .absent ∧
+    ((run {} [.on 0 (.set 1), .on 1 (.set 1), .on 0 .remove, .on 2 .register, .on 0 .timer,
+      .on 1 .remove, .on 0 (.set 2), .on 0 (.reap 0), .on 1 .timer, .on 1 (.reap 0), .close]).at_ 2).slot = .requested := by
+  decide
+
+end Store
+
 /-! ### the code regions the model stands for
 Regenerated from /repo's source on every run (`harness/cmd/astfacts` → `OnetVerif/Shapes.lean`): the
 calls that matter for synchronisation and data flow, the lock regions and (for decision logic) the
@@ -622,8 +789,9 @@ theorem c11_shape_treeStorage_Set :
 
 theorem c11_shape_treeStorage_Remove :
     Shapes.treestorage_treeStorage_Remove =
-   ["ts.Lock", "defer:ts.Unlock", "wg.Add", "go{", "defer:wg.Done", "time.NewTimer", "recv:C",
-     "ts.Lock", "ts.Unlock", "recv:c", "timer.Stop", "}"] := rfl
+   ["ts.Lock", "defer:ts.Unlock", "if:ts.closed", "return:", "if:ok", "return:", "wg.Add", "go{",
+     "defer:wg.Done", "time.NewTimer", "recv:C", "verifPoint:ts.fired", "ts.Lock",
+     "if:(ts.cancellations[]==c)", "ts.Unlock", "recv:c", "timer.Stop", "return:", "}"] := rfl
 
 theorem c11_shape_treeStorage_cancelDeletion :
     Shapes.treestorage_treeStorage_cancelDeletion =
